@@ -12,7 +12,7 @@ rundemo() {
   else cp $DEMO crates/$CRATE/examples/$T.rs; cargo run -q -p $CRATE --example $T --offline $EXTRA 2>&1 | tail -3; echo "exit=$?"; rm crates/$CRATE/examples/$T.rs; fi
 }
 echo "== demo WITH the change (expected: fails)"; rundemo
-git stash -q
+git diff > /tmp/confirm_$$.diff; git checkout -q -- .   # not git stash: the stash is shared between worktrees
 echo "== demo WITHOUT the change (expected: passes)"; rundemo
-git stash pop -q
+git apply /tmp/confirm_$$.diff; rm -f /tmp/confirm_$$.diff
 git status --short
